@@ -77,23 +77,127 @@ def deep_effect(fns):
         any(has(v["body"], 1) for v in main["nested"].values())
 
 
+# ---------------------------------------------------------------------------- placements
+def one_effect(kind):
+    """the single device-visible statement of a placement program (zone `z` and device function `d` in scope)"""
+    F, Lt = L.Fraction, L.L
+    z = ("var", "z")
+    return {
+        "fill": ("eff", "fill", [L.P("list", z)]),
+        "measure": ("eff", "measure", [L.P("list", z)]),
+        "top_hat_cz": ("eff", "top_hat_cz", [z, Lt(F(3)), Lt(F(2))]),
+        "local_r": ("eff", "local_r", [Lt(F(1, 2)), Lt(F(1)), z]),
+        "local_rz": ("eff", "local_rz", [Lt(F(1, 2)), z]),
+        "global_r": ("eff", "global_r", [Lt(F(1, 2)), Lt(F(1))]),
+        "global_rz": ("eff", "global_rz", [Lt(F(1, 2))]),
+        "play": ("devcall", ("var", "d"), [z, Lt(1)], []),
+        "play_group": ("par", [("devcall", ("var", "d"), [z, Lt(1)], []), ("devcall", ("var", "d"), [z, Lt(2)], [])]),
+        "nothing": ("assign", "u", Lt(7)),      # a quiet program with the same control structure
+    }[kind]
+
+
+PLACEMENTS = ["top", "then", "else", "loop1", "loop2", "loop3", "after_loop_return", "sub", "sub_in_branch",
+              "aliased_second_sub", "recursive_sub", "recursion_base_helper", "closure", "closure_in_branch",
+              "after_dynamic_call"]
+
+
+def placement_program(kind, where):
+    """a program whose only device-visible statement is `kind`, placed at `where`; everything else is pure"""
+    Lt, P = L.L, L.P
+    E = one_effect(kind)
+    tk = {"name": "tk0", "tweezer": True, "params": [("g", "grid.Grid[Any, Any]"), ("n", "int")],
+          "body": [("eff", "set_loc", [("var", "g")]), ("eff", "move", [P("shift", ("var", "g"), P("mul", Lt(L.Fraction(1)), ("var", "n")), Lt(L.Fraction(0)))])],
+          "nested": {}, "kinds": ["grid", "int"]}
+    pre = [("assign", "d", P("device_fn", Lt("tk0"), P("list", Lt(0)), P("list", Lt(0)))),
+           ("assign", "z", ("look", "trap", "A"))]
+    def fn(name, params, body, **kw):
+        return dict({"name": name, "tweezer": False, "params": params, "body": body, "nested": {}}, **kw)
+    subs, nested = [], {}
+    def loop(v, stop, body):
+        c = "c" + v
+        return [("assign", c, Lt(0)), ("for", v, Lt(0), stop, Lt(1), [("assign", c, P("add", ("var", c), Lt(1)))] + body)]
+    if where == "top":
+        body = pre + [E]
+    elif where == "then":
+        body = pre + [("if", ("var", "b"), [E], [("assign", "u", Lt(1))])]
+    elif where == "else":
+        body = pre + [("if", ("var", "b"), [("assign", "u", Lt(1))], [E])]
+    elif where == "loop1":
+        body = pre + loop("k1", ("var", "n"), [E])
+    elif where == "loop2":
+        body = pre + loop("k1", ("var", "n"), loop("k2", ("var", "m"), [E]))
+    elif where == "loop3":
+        body = pre + loop("k1", ("var", "n"), loop("k2", ("var", "m"), loop("k3", Lt(2), [("if", ("var", "b"), [E], [])])))
+    elif where == "after_loop_return":
+        body = pre + loop("k1", ("var", "n"), [("ret", ("var", "k1"))]) + [E]
+    elif where == "sub":
+        subs = [fn("sub0", [("a0", "int")], pre + [E, ("ret", ("var", "a0"))])]
+        body = [("assign", "r", ("call", "sub0", [("var", "n")]))]
+    elif where == "sub_in_branch":
+        subs = [fn("sub0", [("a0", "int")], pre + [E, ("ret", P("add", ("var", "a0"), Lt(1)))])]
+        body = [("if", ("var", "b"), [("assign", "r", ("call", "sub0", [("var", "n")]))], [("assign", "r", Lt(0))]),
+                ("ret", ("var", "r"))]
+    elif where == "aliased_second_sub":
+        subs = [fn("sub0", [("a0", "int")], [("ret", P("add", ("var", "a0"), Lt(1)))], factory=True),
+                fn("sub1", [("a0", "int")], pre + [E, ("ret", ("var", "a0"))], factory=True)]
+        body = [("assign", "r", ("call", "sub0", [("var", "n")])), ("assign", "s", ("call", "sub1", [("var", "m")]))]
+    elif where == "recursive_sub":
+        subs = [fn("sub0", [("a0", "int")], [("if", P("le", ("var", "a0"), Lt(0)), [("ret", Lt(0))], [])] + pre +
+                   [E, ("assign", "rr", ("call", "sub0", [P("sub", ("var", "a0"), Lt(1))])), ("ret", P("add", ("var", "rr"), Lt(1)))])]
+        body = [("assign", "r", ("call", "sub0", [("var", "n")]))]
+    elif where == "recursion_base_helper":
+        subs = [fn("pulse", [("a0", "int")], pre + [E, ("ret", ("var", "a0"))]),
+                fn("sub0", [("a0", "int")], [("if", P("gt", ("var", "a0"), Lt(0)),
+                                               [("assign", "rr", ("call", "sub0", [P("sub", ("var", "a0"), Lt(1))]))],
+                                               [("assign", "rr", ("call", "pulse", [("var", "a0")]))]),
+                                              ("ret", ("var", "rr"))])]
+        body = [("assign", "r", ("call", "sub0", [("var", "n")]))]
+    elif where in ("closure", "closure_in_branch"):
+        nested["inner1"] = fn("inner1", [("k", "int")], [E, ("ret", P("add", ("var", "k"), ("var", "n")))])
+        call = ("assign", "r", ("callv", ("var", "inner1"), [("var", "m")]))
+        body = pre + [("assign", "inner1", ("lam", "inner1"))] + \
+            ([call] if where == "closure" else [("if", ("var", "b"), [call], [("assign", "r", Lt(0))])])
+    elif where == "after_dynamic_call":
+        subs = [fn("apply_fn", [("f", None), ("k", "int")], [("ret", ("callv", ("var", "f"), [("var", "k")]))])]
+        nested["inner1"] = fn("inner1", [("k", "int")], [("ret", P("add", ("var", "k"), Lt(1)))])
+        body = pre + [("assign", "inner1", ("lam", "inner1")), ("assign", "r", ("call", "apply_fn", [("var", "inner1"), ("var", "n")])), E,
+                      ("ret", ("var", "r"))]
+    else:
+        raise ValueError(where)
+    if body[-1][0] != "ret":
+        body = body + [("ret", Lt(0))]
+    main = fn("main", [("n", "int"), ("m", "int"), ("b", "bool")], body)
+    main["nested"] = nested
+    return [tk] + subs + [main]
+
+
 def run(ctx):
     from bloqade.shuttle.analysis.runtime import RuntimeAnalysis
     from bloqade.shuttle.prelude import move
     spec = L.default_move_spec()
-    g = L.MoveGen(ctx.rng, {"unknown": 0.0, "assert": 0.0, "recursion": True, "dynamic_call": 0.12, "dead_effect": 0.15})
+    g = L.MoveGen(ctx.rng, {"unknown": 0.0, "assert": 0.0, "recursion": True, "dynamic_call": 0.12, "dead_effect": 0.15, "alias_subs": 0.5, "loop_return": 0.25, "devfn_param": 0.2})
     n_prog = 600 if ctx.tier == "thorough" else 90
     domain = [(n, m, b) for n in range(4) for m in range(3) for b in (True, False)]
     lines, rows = [], []
-    for pi in range(n_prog):
-        fns, _ = g.program()
-        if ctx.rng.random() < 0.4:
-            fns = strip_program(fns)
+    kinds = ["fill", "measure", "top_hat_cz", "local_r", "local_rz", "global_r", "global_rz", "play", "play_group"]
+    placed = [(k, w) for w in PLACEMENTS for k in (kinds if ctx.tier == "thorough" else ctx.rng.sample(kinds, 2))]
+    placed += [("nothing", w) for w in PLACEMENTS if w != "after_dynamic_call"]
+    programs = [placement_program(k, w) for k, w in placed]
+    ctx.count("placement_programs", len(programs))
+    for pi in range(n_prog + len(programs)):
+        if pi < len(programs):
+            fns = programs[pi]
+        else:
+            fns, _ = g.program()
+            if ctx.rng.random() < 0.4:
+                fns = strip_program(fns)
         src = L.program_source(fns)
         try:
             mod = T.load_source(src, "c09")
-        except Exception:  # noqa: BLE001
+        except Exception as e:  # noqa: BLE001
             ctx.count("compile_fail")
+            if pi < len(programs):
+                raise HarnessFault(f"placement program {placed[pi]} does not compile: {type(e).__name__}: {str(e)[:200]}")
             continue
         try:
             ans = "yes" if RuntimeAnalysis(move).has_quantum_runtime(mod.main) else "no"
